@@ -47,6 +47,7 @@ import M4riProofs.GenTieTriFinal
 import M4riProofs.GenTieTop2Final
 import M4riProofs.GenTieClose6
 import M4riProofs.GenTieMax
+import M4riProofs.GenTieCompressPle
 namespace M4ri.Props.C03
 open M4ri M4ri.BMat
 
@@ -239,3 +240,16 @@ end M4ri.Props.C03
 #check @M4ri.GenTieMax.cPluqMax_agree
 #check @M4ri.GenTieMax.c_pluq_max
 #check @M4ri.GenTieMax.c_pluq_max_russian_rank
+
+/-! ### `_mzd_compress_l` ON THE C TEXT (GenTieCompress.lean, GenTieCompressPle.lean): the complete generated function (column swaps through the generated
+    `mzd_col_swap_in_rows`; per row: rest of the first word through the generated read/clear/xor kernels, word-wise shifted copies, remaining bits,
+    clearing of whole words, excess bits restored) equals the model `compressL` under the precondition `Pre` (rows below the pivots are zero from
+    column n1 + r2 to the next word boundary — the C loop clears whole words there) and `n1 % 64 = 0`; `cexA_differs`: without `Pre` the generated
+    text and the model DIFFER (concrete 2 x 66 matrix); the precondition is DISCHARGED at the call site of the recursive PLE step (`IsPLE.outside` of
+    the second recursive result, zero rows below `firstZeroRow`, `splitPoint_mod`), so the step tie holds with the generated function in place of the
+    lifted model operation (`pleRecStep_pleRec_gen`) -/
+#check @M4ri.GenTieCompress.mzdCompressL_eq
+#check @M4ri.GenTieCompress.mzdCompressL_eq_lift
+#check @M4ri.GenTieCompress.cexA_differs
+#check @M4ri.GenTieCompress.genCompress_ok
+#check @M4ri.GenTieCompress.pleRecStep_pleRec_gen
